@@ -49,6 +49,12 @@ CAUGHT = {
  "C08d": "C08 `TV_Bounds` (replay limit not enforced without a budget)", "C11d": "C11 `TV_Stream` (anchors of a later document visible in the next ones)",
  "C12d": "C12 `TV_Quoting` (block scalar whose first non-empty line is blanks only)", "C16d": "C16 `TV_Locations` (use site of leaves below an aliased container)",
  "C17d": "C17 `TV_Snippet` (marker of the definition window)",
+ "C02e": "C02 `TV_LiveEvents` on stale-alias streams with a leading anchored document (three documents; added for it); also C11",
+ "C04e": "C04 `TV_MapAccess` on the wide-mapping family (6-40 distinct keys, a key repeated next to a capacity boundary; added for it)",
+ "C07e": "C07 `TV_Budget` on the `y3n` streams (document, over-limit document failing inside a sequence, document again)",
+ "C10e": "C10 `TV_ReaderInput` (typed fault family: `value-from-truncated-input`)",
+ "C11e": "C11 `TV_Stream`",
+ "C20e": "C20 `TV_Emitter` on the hinted-in-flow family (Lit / Fold inside FlowSeq / FlowMap followed by strings in block context; added for it)",
  "C16a": "C16 `TV_Locations` (`merged-entry-not-attributed-to-its-merge`)", "C17a": "C17 `TV_Snippet` (`ring` family)",
  "C18a": "C18 `TV_PathMap` through the Display channels", "C19a": "C19 `TV_Robotics` (`wrong-value`)", "C20a": "C20 `TV_Emitter`",
 }
